@@ -24,6 +24,16 @@ type FmtCase struct {
 	// Target is the argument naming the file ("" = 932100): NNNNNN, NNNNNN.ra, NNNNNN-chainK[.ra]. For chained
 	// targets the chain starter's file 932100.ra exists too (unformatted) and must stay as it is.
 	Target string `json:"target,omitempty"`
+	// Trace: format runs with -l trace
+	Trace bool `json:"trace,omitempty"`
+}
+
+// Global returns the global arguments in front of `regex format`.
+func (c FmtCase) Global(root string) []string {
+	if c.Trace {
+		return []string{"-l", "trace", "-d", root}
+	}
+	return []string{"-d", root}
 }
 
 func (c FmtCase) Arg() string {
@@ -76,6 +86,7 @@ func genFmtCase(t *rapid.T, disagree bool) FmtCase {
 	kind := rapid.SampledFrom([]string{"structured", "structured", "structured", "structured", "raw", "boundary"}).Draw(t, "kind")
 	c.Kind = kind
 	c.Target = rapid.SampledFrom([]string{"", "", "", "932100.ra", "932100-chain2", "932100-chain2.ra", "932100-chain255"}).Draw(t, "target")
+	c.Trace = rapid.IntRange(0, 5).Draw(t, "trace") == 0
 	switch kind {
 	case "boundary":
 		c.Raw = rapid.SampledFrom([]string{"", "\n", "\n\n\n", "   ", " \t \n", "\r\n", raHeader, raHeader + "\n", raHeader + "\n\n\n", strings.TrimSuffix(raHeader, "\n"), raHeader + "foo", raHeader + "\nfoo", raHeader + "\nfoo\n\n\n", "foo", "foo\n\n", "\n\nfoo", "##!> assemble\n##!<", "##!> assemble\nfoo\n"}).Draw(t, "boundary")
@@ -149,6 +160,7 @@ func genFmtCase(t *rapid.T, disagree bool) FmtCase {
 			"##!> define  n   v  ",
 			"##!> include-except  f0   f1    --  a   b ",
 			"##!> include f0 --  a    b",
+			"##! " + strings.Repeat("long comment ", 5400),
 			"##!> include f0 --",
 			"##!> include-except f0 f0 --  ",
 			"##!> include f0  -- ",
